@@ -10,7 +10,7 @@ from ..refmodel import dtl, picture, text as reftext
 from ..refmodel.trees import T
 from superrec2.render import layout as layout_mod, tikz as tikz_mod
 from superrec2.render.model import DrawParams, PseudoGene
-from superrec2.model.reconciliation import NodeEvent, EdgeEvent
+from superrec2.model.reconciliation import NodeEvent, EdgeEvent, ReconciliationOutput
 
 PROP = "C13"
 LEVEL = "exploration"
@@ -32,21 +32,33 @@ STUBS = [("hash", 1), ("unit", 0), ("tall", 2), ("wide", 3)]
 
 
 def plan(tier, seed):
-    pairs = spaces.shape_pairs(4, 3) if tier == "quick" else spaces.shape_pairs(5, 3) + spaces.shape_pairs(4, 4, min_sp=4)
+    # quick: <=4 x <=3 leaves plus few-leaved objects on deeper species trees (4-5 leaves: long branches, children on
+    # both sides strictly below the child species, transfers between distant clades)
+    pairs = (spaces.shape_pairs(4, 3) + spaces.shape_pairs(3, 4, min_sp=4) + spaces.shape_pairs(2, 6, min_sp=5) if tier == "quick"
+             else spaces.shape_pairs(5, 3) + spaces.shape_pairs(4, 4, min_sp=4) + spaces.shape_pairs(3, 6, min_sp=5))
     out = []
     for osh, ssh in pairs:
         k = max(1, spaces.count_assignments(osh, ssh) // 8)
         for i in range(k):
-            out.append({"slice": "P4x3" if tier == "quick" else "P5x3+P4x4", "osh": osh, "ssh": ssh, "part": (i, k)})
+            out.append({"slice": "P4x3+P3x4+P2x6" if tier == "quick" else "P5x3+P4x4+P3x6", "osh": osh, "ssh": ssh, "part": (i, k)})
+    # operation histories: every ordered pair of distinct valid mappings of one input drawn one after the other on the
+    # SAME tree objects (what `draw` sees when it is handed several solutions of one solver run)
+    for osh, ssh in (spaces.shape_pairs(3, 3) if tier == "quick" else spaces.shape_pairs(4, 3)):
+        k = max(1, spaces.count_assignments(osh, ssh) // 4)
+        for i in range(k):
+            out.append({"slice": "shared-trees", "mode": "shared", "osh": osh, "ssh": ssh, "part": (i, k)})
     return out
 
 
-def check_rec(O, S, leafmap, m, evs, labmode, orient, stubspec, seed=0):
-    """None or (subcheck, detail)"""
+def check_rec(O, S, leafmap, m, evs, labmode, orient, stubspec, seed=0, prebuilt=None):
+    """None or (subcheck, detail); prebuilt = (rec, onode, snode) when the reconciliation lives on shared trees"""
     lab = None if labmode == "none" else R.labellings_for(O, labmode)
     stub = stubs.install(stubs.Stub(stubspec[0], stubspec[1] + 17 * seed))
     try:
-        rec, onode, snode, on, sn = R.build_rec(O, S, leafmap, m, lab)
+        if prebuilt is not None:
+            rec, onode, snode = prebuilt
+        else:
+            rec, onode, snode, on, sn = R.build_rec(O, S, leafmap, m, lab)
         params = DrawParams(orientation=R.ORIENT[orient])
         lay = layout_mod.compute(rec, params)
         code = tikz_mod.render(rec, lay, params)
@@ -128,7 +140,57 @@ def check_rec(O, S, leafmap, m, evs, labmode, orient, stubspec, seed=0):
     return None
 
 
+def shared_pair(O, S, leafmap, m1, m2, orient, stubspec, seed=0):
+    """two different reconciliations of ONE input object (same tree objects, as the outputs of a solver are): draw the
+    first, then check the drawing of the second"""
+    rec1, onode, snode, _, _ = R.build_rec(O, S, leafmap, m1, None)
+    rec2 = ReconciliationOutput(rec1.input, {onode[v]: snode[x] for v, x in m2.items()})
+    stubs.install(stubs.Stub(stubspec[0], stubspec[1] + 17 * seed))
+    try:
+        params = DrawParams(orientation=R.ORIENT[orient])
+        tikz_mod.render(rec1, layout_mod.compute(rec1, params), params)
+    except Exception as exc:
+        return ("exception", f"first drawing: {type(exc).__name__}: {exc}\n{traceback.format_exc(limit=6)}")
+    evs2 = dtl.events_of(O, S, leafmap, m2)
+    bad = check_rec(O, S, leafmap, m2, evs2, "none", orient, stubspec, seed, prebuilt=(rec2, onode, snode))
+    if bad:
+        return (bad[0], f"after drawing mapping {sorted(m1.items())} of the same input object: " + bad[1])
+    return None
+
+
+def run_shared_shard(shard, seed):
+    osh, ssh = shard["osh"], shard["ssh"]
+    O, S = T(osh), T(ssh)
+    n_eval = vtotal = 0
+    viols = []
+    samples = []
+    for ai, leafmap in enumerate(spaces.assignments(O, S)):
+        if ai % shard["part"][1] != shard["part"][0]:
+            continue
+        maps = [m for m, _ in dtl.valid_mappings(O, S, leafmap)]
+        for i, m1 in enumerate(maps):
+            for j, m2 in enumerate(maps):
+                if i == j:
+                    continue
+                n_eval += 1
+                orient = "VH"[(i + j) % 2]
+                stubspec = STUBS[(i + 2 * j) % len(STUBS)]
+                bad = shared_pair(O, S, leafmap, m1, m2, orient, stubspec, seed)
+                case = R.rec_case(osh, ssh, leafmap, m2, first_mapping=sorted(m1.items()), orientation=orient,
+                                  stub=list(stubspec), seed=seed, shared=True)
+                if bad:
+                    vtotal += 1
+                    if len(viols) < 6 and not any(v["subcheck"] == bad[0] for v in viols):
+                        viols.append({"property": PROP, "subcheck": bad[0], "case": case, "detail": bad[1]})
+                if not samples:
+                    samples.append(case)
+    return {"evaluations": n_eval, "nontrivial": n_eval, "samples": samples, "violations": viols, "violations_total": vtotal,
+            "counters": {"shared_tree_pairs": n_eval}}
+
+
 def run_shard(shard, tier, seed):
+    if shard.get("mode") == "shared":
+        return run_shared_shard(shard, seed)
     osh, ssh = shard["osh"], shard["ssh"]
     O, S = T(osh), T(ssh)
     part = shard["part"]
@@ -166,6 +228,11 @@ def run_shard(shard, tier, seed):
 def replay(v):
     c = v["case"]
     O, S, leafmap, m = R.rec_from_case(c)
+    if c.get("shared"):
+        m1 = {int(k): int(x) for k, x in c["first_mapping"]}
+        bad = shared_pair(O, S, leafmap, m1, m, c["orientation"], tuple(c["stub"]), c.get("seed", 0))
+        stubs.restore()
+        return {"violated": bool(bad), "detail": (bad[0] + ": " + bad[1]) if bad else None}
     evs = dtl.events_of(O, S, leafmap, m)
     bad = check_rec(O, S, leafmap, m, evs, c["labelling"], c["orientation"], tuple(c["stub"]), c.get("seed", 0))
     stubs.restore()
